@@ -141,9 +141,13 @@ def si_histories(run, tier, rng):
                     continue
                 if op[0] == "finalize":
                     rec.call("finalize")
+                    if rec.events[-1]["err"]:
+                        run.violation({"kind": "si_finalize_raised", "cfg": c, "history": [list(o) for o in h]})
                     inprog = False
                     continue
-                x = common.relayout(nprng.randint(-4, 5, size=op[1]).astype(np.float64), common.LAYOUTS[op[1] % len(common.LAYOUTS)])
+                x = common.relayout(nprng.randint(-4, 5, size=op[1]).astype(np.float64), ("contig", "strided", "fortran", "negstride")[op[1] % 4])
+                # (not the opposite byte order: to numpy that is another dtype, and a chunk whose dtype differs from the
+                # utterance's first chunk is refused by documented design)
                 x.flags.writeable = False
                 keep = x.copy()
                 was = inprog
@@ -167,6 +171,7 @@ def si_histories(run, tier, rng):
             xs = nprng.randint(-4, 5, size=sum(o[1] for o in probe if o[0] == "chunk")).astype(np.float64) + 0.25
             fresh = si_model.make_si(c, taps, use_power=True, use_log=False)
             used_vals, fresh_vals, p = [], [], 0
+            refused = None
             for op in probe:
                 if op[0] == "chunk":
                     used_vals.append(rec.call("chunk", xs[p:p + op[1]]))
@@ -175,7 +180,17 @@ def si_histories(run, tier, rng):
                 else:
                     used_vals.append(rec.call("finalize"))
                     fresh_vals.append(fresh.finalize())
+                if rec.events[-1]["err"] or not isinstance(used_vals[-1], np.ndarray):
+                    refused = list(op)
+                    break
             run.evaluations += 1
+            if refused is not None:
+                # the fresh instance accepted the call, the used one raised: hidden state survived the history
+                run.violation({"kind": "si_probe_refused_by_used_instance", "cfg": c, "history": [list(o) for o in h], "call": refused})
+                tid += 1
+                traces.append({"tid": tid, "cfg": {k: c[k] for k in ("style", "S", "M", "T", "D")}, "events": rec.events})
+                meta[tid] = (c, h)
+                continue
             a, b = np.concatenate(used_vals), np.concatenate(fresh_vals)
             if a.shape != b.shape or a.tobytes() != b.tobytes():
                 run.violation({"kind": "si_probe_differs_from_fresh_instance", "cfg": c, "history": [list(o) for o in h],
